@@ -211,6 +211,8 @@ struct W {
     heavy_every: usize,
     /// the property being checked (decides attribution where two properties cover the same event)
     prop: String,
+    /// a foreign divergence has been seen: only divergences of the checked property end the history
+    lenient: bool,
 }
 
 fn wrong_gen_entity(e: &specs::error::WrongGeneration) -> Entity {
@@ -662,6 +664,20 @@ impl W {
 
     fn check_all(&mut self, heavy: bool) -> R {
         self.checks += 1;
+        if self.lenient {
+            // another property's oracle has already diverged in this history: keep looking for a
+            // divergence of the property being checked, its own subject first
+            let own = self.prop.clone();
+            let rs = [self.check_ledger(), self.check_storages(), self.check_entities(heavy), self.check_allocator()];
+            for r in rs {
+                if let Err((p, m)) = r {
+                    if p == own {
+                        return Err((p, m));
+                    }
+                }
+            }
+            return Ok(());
+        }
         self.check_ledger()?;
         self.check_entities(heavy)?;
         self.check_allocator()?;
@@ -1178,7 +1194,7 @@ fn run_case(rep: &mut Report, case: u64) {
         mno: Arc::new(AtomicU64::new(0)),
     };
     let long = cfg.extra_u64("long", 0) == 1 || rng.chance(1, 50);
-    let nops = if long { cfg.ops * 12 } else { rng.range(cfg.ops / 3 + 1, cfg.ops) };
+    let mut nops = if long { cfg.ops * 12 } else { rng.range(cfg.ops / 3 + 1, cfg.ops) };
     let mut w = W {
         world: Some(World::new()),
         env,
@@ -1212,6 +1228,7 @@ fn run_case(rep: &mut Report, case: u64) {
         checks: 0,
         heavy_every: 1,
         prop: cfg.prop.clone(),
+        lenient: false,
     };
     // initial registrations: most storages now, some later
     for k in 0..nst {
@@ -1226,6 +1243,7 @@ fn run_case(rep: &mut Report, case: u64) {
     }
     let mut planned: Vec<(usize, Hint)> = Vec::new(); // (op code, target hint), executed front first
     let mut failure: Option<(Fail, usize)> = None;
+    let mut foreign_first: Option<(Fail, usize)> = None;
     let max_live = cfg.extra_u64("max_live", 8) as usize;
     let mut step = 0usize;
     while step < nops {
@@ -1254,7 +1272,7 @@ fn run_case(rep: &mut Report, case: u64) {
                 (w.rng.weighted(&weights), Hint::Any)
             }
         };
-        let r: R = (|| {
+        let r = std::panic::catch_unwind(std::panic::AssertUnwindSafe(|| -> R {
             match code {
                 0..=7 => w.op_create(code)?,
                 8 => {
@@ -1310,11 +1328,30 @@ fn run_case(rep: &mut Report, case: u64) {
                 w.check_ledger()?;
             }
             Ok(())
-        })();
+        }));
+        let r = match r {
+            Ok(r) => r,
+            Err(_) if w.lenient => break, // the model lost track after the foreign divergence
+            Err(e) => std::panic::resume_unwind(e),
+        };
         if let Err(f) = r {
-            failure = Some((f, step));
-            break;
+            let own = f.0 == cfg.prop || cfg.prop.is_empty() || cfg.prop == "ALL";
+            if own {
+                failure = Some((f, step));
+                break;
+            }
+            // Another property's oracle diverged (the tree is broken anyway). Keep driving this history
+            // for a while, own subject first, to see whether the checked property diverges as well: the
+            // first foreign divergence is reported if it does not.
+            if foreign_first.is_none() {
+                foreign_first = Some((f, step));
+                w.lenient = true;
+                nops = nops.min(step + 40);
+            }
         }
+    }
+    if failure.is_none() && foreign_first.is_some() {
+        failure = foreign_first.take();
     }
     // end of history: optional final maintain, then drop the world and balance the ledger
     if failure.is_none() {
